@@ -47,7 +47,7 @@ def attr_text(lit, cfg):
     return "#[display(%s%s)]" % (json.dumps(lit), (", " + tc_args_text(cfg)) if cfg & 3 else "")
 
 
-def run(prop, entry, forms, tier, kf, fail_text, classify, what, functions, n_full=None, n_deep=None):
+def run(prop, entry, forms, tier, kf, fail_text, classify, what, functions, n_full=None, n_deep=None, alphabet=None, deep_alphabet=None, render=None):
     """-> dict(violations, known, inconclusive, coverage) for krun's extra_pass hook"""
     import multiprocessing
     import z3
@@ -63,9 +63,12 @@ def run(prop, entry, forms, tier, kf, fail_text, classify, what, functions, n_fu
         return out
     mod = E.Module(b["ll"])
     recs, per = [], {}
+    alphabet = alphabet or TC_ALPHABET
+    deep_alphabet = deep_alphabet or TC_DEEP
+    attr_text_ = (lambda lit, cfg: "#[display(%s%s)] %s" % ((json.dumps(lit),) + render(cfg))) if render else attr_text
     n_full = (n_full or TC_N)[tier]
     n_deep = (n_deep or TC_DEEP_N)[tier]
-    jobs = [(n, TC_ALPHABET) for n in range(0, n_full + 1)] + [(n, TC_DEEP) for n in range(n_full + 1, n_deep + 1)]
+    jobs = [(n, alphabet) for n in range(0, n_full + 1)] + [(n, deep_alphabet) for n in range(n_full + 1, n_deep + 1)]
     for fname, cfg in forms:
         for n, alpha in jobs:
             outdir = os.path.join(scratch, "paths-%d-%d" % (cfg, n))
@@ -112,7 +115,7 @@ def run(prop, entry, forms, tier, kf, fail_text, classify, what, functions, n_fu
     for r in recs:
         if r["kind"] != "ret":
             out["inconclusive"].append("decision-half path ended %s: %s (%s)" % (
-                r["kind"], r.get("detail"), attr_text(bytes(r["input"] or []).decode("utf8", "replace"), r["cfg"])))
+                r["kind"], r.get("detail"), attr_text_(bytes(r["input"] or []).decode("utf8", "replace"), r["cfg"])))
             break
     # native cross-check (return code must agree): all disagreeing paths and a sample of the agreeing ones
     fails = [r for r in rets if r["code"] != 0]
@@ -140,31 +143,31 @@ def run(prop, entry, forms, tier, kf, fail_text, classify, what, functions, n_fu
         r = min(rs, key=lambda r: (len(r["input"]), r["input"]))
         lit = bytes(r["input"]).decode("utf8", "replace")
         if text is not None:
-            out["known"].append("KNOWN-FINDING: property=%s key=%s %s (%d paths, e.g. `%s`)" % (prop, key, text, len(rs), attr_text(lit, r["cfg"])))
+            out["known"].append("KNOWN-FINDING: property=%s key=%s %s (%d paths, e.g. `%s`)" % (prop, key, text, len(rs), attr_text_(lit, r["cfg"])))
             continue
         if not (r.get("native") and r["native"].get("code") == r["code"]):
             out["inconclusive"].append("decision disagreement %s did not reproduce natively" % key)
             continue
         path = os.path.join(replay_dir, "decision_%s.json" % "".join(c if c.isalnum() else "_" for c in key)[:60])
         json.dump({"property": prop, "class": key, "entry": entry, "meaning": fail_text.get(r["code"]), "literal": lit, "bytes": r["input"], "cfg": r["cfg"],
-                   "arguments": tc_args_text(r["cfg"]), "user_level": "#[derive(Display)] " + attr_text(lit, r["cfg"]),
-                   "native": r["native"], "paths_in_class": len(rs), "others": [attr_text(bytes(x["input"]).decode("utf8", "replace"), x["cfg"]) for x in rs[:10]]},
+                   "arguments": (" ".join(render(r["cfg"])) if render else tc_args_text(r["cfg"])), "user_level": "#[derive(Display)] " + attr_text_(lit, r["cfg"]),
+                   "native": r["native"], "paths_in_class": len(rs), "others": [attr_text_(bytes(x["input"]).decode("utf8", "replace"), x["cfg"]) for x in rs[:10]]},
                   open(path, "w"), indent=1)
-        out["violations"].append((key, path, "%s: `%s` (%d paths)" % (fail_text.get(r["code"]), attr_text(lit, r["cfg"]), len(rs))))
+        out["violations"].append((key, path, "%s: `%s` (%d paths)" % (fail_text.get(r["code"]), attr_text_(lit, r["cfg"]), len(rs))))
     out["coverage"] = {
         "decision_half": {
             "engine": "llsym over the LLVM IR of vf/llsym/rust/tc/probe_tc.rs: %s cut verbatim out of impl/src/fmt/mod.rs + the working-tree "
                       "impl/src/fmt/parsing.rs and impl/src/parsing.rs (Expr), against syn/proc_macro2/quote stubs" % what,
             "functions_encoded": functions + ["impl/src/fmt/parsing.rs (everything the cut functions call)",
                                               "vf/llsym/rust/oracle.rs::reference (std's reading of the literal, pinned against rustc_parse_format)"],
-            "bounds": {"literal": "every string of <= %d bytes over `%s`, then <= %d bytes over `%s`" % (n_full, TC_ALPHABET, n_deep, TC_DEEP),
+            "bounds": {"literal": "every string of <= %d bytes over `%s`, then <= %d bytes over `%s`" % (n_full, alphabet, n_deep, deep_alphabet),
                        "argument_forms": [f for f, _ in forms],
                        "outside": "longer literals, other characters, three or more arguments, identifiers other than `a` / `b`"},
             "paths": len(recs), "paths_agreeing": len([r for r in rets if r["code"] == 0]), "paths_disagreeing": len(fails),
             "solver_queries": sum(v["queries"] for v in per.values()), "solver_s": round(sum(v["solver_s"] for v in per.values()), 1),
             "native_cross_check": {"paths": len(sample), "mismatches": mism}, "wall_s": round(time.time() - t0, 1),
             "per_form_and_length": per,
-            "samples": [{"attribute": attr_text(bytes(r["input"]).decode("utf8", "replace"), r["cfg"]), "verdict": r["code"]} for r in (rets[-3:] + fails[:3])],
+            "samples": [{"attribute": attr_text_(bytes(r["input"]).decode("utf8", "replace"), r["cfg"]), "verdict": r["code"]} for r in (rets[-3:] + fails[:3])],
         }
     }
     return out
@@ -175,7 +178,7 @@ def replay_json(prop, path):
     j = json.load(open(path))
     b = build.build_tc_wrapper(common.scratch_dir(prop + "-replay"))
     out = native.run_native(b["so"], [bytes(j["bytes"])], extra=(j["cfg"],), entry=j.get("entry", "probe"))[0]
-    print("%s -> native %s" % (attr_text(j["literal"], j["cfg"]), out))
+    print("#[display(%s, %s)] -> native %s" % (json.dumps(j["literal"]), j.get("arguments"), out))
     if out.get("abort") or out.get("code") not in (0,):
         print("VIOLATION property=%s replay=%s" % (prop, path))
         return common.EXIT_VIOLATION
